@@ -3,11 +3,15 @@ package main
 import (
 	"encoding/binary"
 	"encoding/hex"
+	"encoding/json"
 	"fmt"
+	"os"
+	"path/filepath"
 	"sort"
 	"strings"
 	"sync"
 	"sync/atomic"
+	"syscall"
 	"time"
 
 	"github.com/bfenetworks/bfe/bfe_http2"
@@ -440,6 +444,9 @@ func c35fSteps(r *vkit.Run) []c35fStep {
 				}
 				f := c35fFrame{Type: t, Flags: fl, PadLen: -1, HasRaw: true, Raw: hex.EncodeToString(raw)}
 				ctx := []string{"zero", "open", "idle"}[g.Intn(3)]
+				if !thorough && g.Bool() {
+					continue
+				}
 				emit(c35fStep{Frames: []c35fFrame{f}, Shape: c35fTypeName(t) + ":flags-and-lengths"}, []string{ctx}, 1, 1)
 			}
 		}
@@ -468,11 +475,7 @@ type c35fConn struct {
 	acked   bool
 }
 
-var dbgAhead, dbgAwait, dbgRest, dbgDial, dbgGoaway int64
-
 func c35fDial() (*c35fConn, bool) {
-	t0 := time.Now()
-	defer func() { atomic.AddInt64(&dbgDial, int64(time.Since(t0))) }()
 	h := &c35Handler{invoked: map[int]uint32{}, release: map[int]chan struct{}{}, modes: map[int]string{-1: "now"}, all: make(chan struct{})}
 	fc := &c35fConn{tc: dialPipe(&bfe_http2.Server{}, h), h: h, nextID: 1}
 	fc.tc.cli.AutoAckSettings = false // the reader goroutine must never block in a write (see await)
@@ -549,7 +552,15 @@ func (fc *c35fConn) waitInvoked(k int) bool {
 }
 
 // c35fRunStep runs one step on fc. It returns false when the connection is used up.
-func c35fRunStep(r *vkit.Run, fc *c35fConn, st *c35fStep, ahead func(v interface{})) (alive bool, why string) {
+// A refusal of a LEGAL step is returned (rejected), not reported: the caller repeats the step on a fresh
+// connection and reports only a refusal that repeats, so that a connection the server dropped for a
+// reason of its own clock (2 s first-SETTINGS timer on a stalled machine) is never taken for a verdict.
+type c35fRejected struct {
+	sig, what string
+	wit       interface{}
+}
+
+func c35fRunStep(r *vkit.Run, fc *c35fConn, st *c35fStep, ahead func(v interface{})) (alive bool, why string, rej *c35fRejected) {
 	cli := fc.tc.cli
 	id := fc.nextID
 	fc.nextID += 2
@@ -595,19 +606,13 @@ func c35fRunStep(r *vkit.Run, fc *c35fConn, st *c35fStep, ahead func(v interface
 	var d [8]byte
 	binary.BigEndian.PutUint64(d[:], 0xF1A6000000000000|fc.pingSeq)
 	group = append(group, h2cli.RawFrame{Type: http2.FramePing, Payload: d[:]})
-	tA := time.Now()
-	ahead(map[string]interface{}{"flag_step": st, "stream_id": id, "wire_hex": wire})
-	atomic.AddInt64(&dbgAhead, int64(time.Since(tA)))
-	tB := time.Now()
-	defer func() { atomic.AddInt64(&dbgRest, int64(time.Since(tB))) }()
+	ahead(map[string]interface{}{"flag_step": st, "wire": wire})
 	// net.Pipe writes block until the peer reads, and after a framer-level connection error the server
 	// stops reading: the frames are written beside the wait for the reaction, with a safety bound
 	cli.NetConn().SetWriteDeadline(time.Now().Add(60 * time.Second))
 	wrote := make(chan error, 1)
 	go func() { wrote <- cli.WriteRawGroup(group) }()
 	oc, ga := fc.await(from, d)
-	atomic.AddInt64(&dbgAwait, int64(time.Since(tB)))
-	if oc == "goaway" { atomic.AddInt64(&dbgGoaway, int64(time.Since(tB))) }
 	if oc == "continues" {
 		<-wrote // the acknowledged PING was the last frame of the group
 	}
@@ -630,7 +635,7 @@ func c35fRunStep(r *vkit.Run, fc *c35fConn, st *c35fStep, ahead func(v interface
 	}
 	switch oc {
 	case "timeout":
-		return false, "no reaction within the safety bound"
+		return false, "no reaction within the safety bound", nil
 	case "goaway":
 		r.Count("flag_goaway:"+ga.ErrCode.String(), 1)
 	case "continues":
@@ -646,31 +651,27 @@ func c35fRunStep(r *vkit.Run, fc *c35fConn, st *c35fStep, ahead func(v interface
 			if ga != nil {
 				code = ga.ErrCode.String()
 			}
-			r.Violation("legal-frame-rejected:"+st.Shape+":connection-"+code, fmt.Sprintf("%s is legal (valid padding / priority fields, undefined flags must be ignored) but the connection ended (%s)", st.Shape, code), wit())
-			return false, ""
+			return false, "", &c35fRejected{"legal-frame-rejected:" + st.Shape + ":connection-" + code, fmt.Sprintf("%s is legal (valid padding / priority fields, undefined flags must be ignored) but the connection ended (%s)", st.Shape, code), wit()}
 		case st.Frames[0].Type == 1:
 			if rst != nil && rst.ErrCode != http2.ErrCodeNo {
-				r.Violation("legal-frame-rejected:"+st.Shape+":rst-"+rst.ErrCode.String(), fmt.Sprintf("%s carries a complete valid request with valid padding / priority fields but stream %d was reset with %v", st.Shape, id, rst.ErrCode), wit())
-				return false, ""
+				return false, "", &c35fRejected{"legal-frame-rejected:" + st.Shape + ":rst-" + rst.ErrCode.String(), fmt.Sprintf("%s carries a complete valid request with valid padding / priority fields but stream %d was reset with %v", st.Shape, id, rst.ErrCode), wit()}
 			}
 			if !fc.waitInvoked(k) {
 				if e, _ := cli.Ended(); e {
-					r.Violation("legal-frame-rejected:"+st.Shape+":connection-close", st.Shape+" is a legal request but the connection ended", wit())
-					return false, ""
+					return false, "", &c35fRejected{"legal-frame-rejected:" + st.Shape + ":connection-close", st.Shape + " is a legal request but the connection ended", wit()}
 				}
-				return false, "legal request did not reach the handler within the safety bound"
+				return false, "legal request did not reach the handler within the safety bound", nil
 			}
 			r.Count("flag_legal_requests_served", 1)
 		default:
 			if rst != nil && rst.ErrCode != http2.ErrCodeNo {
-				r.Violation("legal-frame-rejected:"+st.Shape+":rst-"+rst.ErrCode.String(), fmt.Sprintf("%s on an open stream is legal but stream %d was reset with %v", st.Shape, id, rst.ErrCode), wit())
-				return false, ""
+				return false, "", &c35fRejected{"legal-frame-rejected:" + st.Shape + ":rst-" + rst.ErrCode.String(), fmt.Sprintf("%s on an open stream is legal but stream %d was reset with %v", st.Shape, id, rst.ErrCode), wit()}
 			}
 			r.Count("flag_legal_data_accepted", 1)
 		}
 	}
 	if oc != "continues" {
-		return false, ""
+		return false, "", nil
 	}
 	// let the blocked set-up handler go: client reset, then release
 	if setupK >= 0 {
@@ -681,35 +682,94 @@ func c35fRunStep(r *vkit.Run, fc *c35fConn, st *c35fStep, ahead func(v interface
 	}
 	switch st.Frames[0].Type {
 	case 0, 1, 2, 9:
-		return true, ""
+		return true, "", nil
 	}
 	// SETTINGS, GOAWAY, WINDOW_UPDATE ... may change what the connection accepts afterwards
-	return false, ""
+	return false, "", nil
 }
 
-// c35FlagSpace runs the whole step list sequentially.
 // c35fLanes connections run side by side: every hostile frame still costs one round trip through
 // six goroutine hand-overs, which on a loaded machine is milliseconds. The write-ahead file holds the
 // steps of ALL lanes that are on the wire (at most c35fLanes, the culprit of a fatal crash is one of
 // them); replaying such a witness runs them one at a time and names the single step.
-const c35fLanes = 4
+const c35fLanes = 8
 
 type c35fAhead struct {
-	mu  sync.Mutex
-	cur []interface{}
+	mu   sync.Mutex
+	seq  int
+	cur  []interface{}
+	m    []byte // $VERIF_SCRATCH/cur_case.C35.json, mapped shared
+	high int    // longest content written so far
+}
+
+const c35fAheadSize = 16384
+
+// write is vkit.WriteAhead (same file, same format) without a file-system operation per call: on a
+// busy disk every open/truncate/close - and even a plain write(2), which has to update the inode
+// through the journal - takes milliseconds and would serialise the lanes. The file is created once
+// through vkit, extended to a fixed size and mapped shared; a step is written ahead by copying it
+// into the mapping, padded with blanks (JSON ignores trailing white space). The page cache keeps
+// the content when the process dies.
+func (a *c35fAhead) write(r *vkit.Run, v interface{}) {
+	b, _ := json.Marshal(map[string]interface{}{"property": r.Prop, "seed": r.Seed, "tier": r.Tier, "case": v})
+	if a.m == nil || len(b) > len(a.m) {
+		a.unmap()
+		r.WriteAhead(v)
+		d := os.Getenv("VERIF_SCRATCH")
+		if d == "" || len(b) > c35fAheadSize {
+			return
+		}
+		f, err := os.OpenFile(filepath.Join(d, "cur_case."+r.Prop+".json"), os.O_RDWR, 0)
+		if err != nil {
+			return
+		}
+		defer f.Close()
+		if f.Truncate(c35fAheadSize) != nil {
+			return
+		}
+		m, err := syscall.Mmap(int(f.Fd()), 0, c35fAheadSize, syscall.PROT_READ|syscall.PROT_WRITE, syscall.MAP_SHARED)
+		if err != nil {
+			r.WriteAhead(v) // back to the plain file
+			return
+		}
+		a.m, a.high = m, len(m) // the first copy blanks the zero octets of the extension
+	}
+	if len(b) > a.high {
+		a.high = len(b)
+	}
+	n := len(b)
+	for len(b) < a.high {
+		b = append(b, ' ')
+	}
+	copy(a.m, b)
+	a.high = n
+}
+
+func (a *c35fAhead) unmap() {
+	if a.m != nil {
+		syscall.Munmap(a.m)
+		a.m = nil
+	}
+}
+
+func (a *c35fAhead) close() {
+	a.mu.Lock()
+	a.unmap()
+	a.mu.Unlock()
 }
 
 func (a *c35fAhead) set(r *vkit.Run, lane int, v interface{}) {
 	a.mu.Lock()
 	defer a.mu.Unlock()
-	a.cur[lane] = v
+	a.seq++
+	a.cur[lane] = map[string]interface{}{"written_seq": a.seq, "lane": lane, "step": v}
 	var fl []interface{}
 	for _, c := range a.cur {
 		if c != nil {
 			fl = append(fl, c)
 		}
 	}
-	r.WriteAhead(map[string]interface{}{"phase": "flag space: hostile frames on the wire (nothing else runs in the process)", "in_flight": fl})
+	a.write(r, map[string]interface{}{"phase": "flag space: hostile frames on the wire (nothing else runs in the process)", "in_flight": fl})
 }
 
 func (a *c35fAhead) clear(lane int) {
@@ -763,8 +823,24 @@ func c35FlagSpace(r *vkit.Run, steps []c35fStep, lanes int) {
 				}
 				fc.steps++
 				last = st
-				alive, why := c35fRunStep(r, fc, st, func(v interface{}) { ahead.set(r, lane, v) })
+				alive, why, rej := c35fRunStep(r, fc, st, func(v interface{}) { ahead.set(r, lane, v) })
 				ahead.clear(lane)
+				for attempt := 2; rej != nil; attempt++ {
+					if attempt > 3 {
+						r.Violation(rej.sig, rej.what+" (3 times on 3 fresh connections)", rej.wit)
+						break
+					}
+					r.Count("flag_legal_step_repeated", 1)
+					retire()
+					var ok bool
+					if fc, ok = c35fDial(); !ok {
+						retire()
+						why = "legal step refused once, repetition could not be set up"
+						break
+					}
+					alive, why, rej = c35fRunStep(r, fc, st, func(v interface{}) { ahead.set(r, lane, v) })
+					ahead.clear(lane)
+				}
 				r.CaseS(fmt.Sprintf("flags|%s|%+v", st.Ctx, st.Frames), true)
 				r.Count("flag_steps", 1)
 				r.Count("flagshape:"+st.Shape, 1)
@@ -788,9 +864,8 @@ func c35FlagSpace(r *vkit.Run, steps []c35fStep, lanes int) {
 		}(lane)
 	}
 	wg.Wait()
-	println("DBG ahead", dbgAhead/1e6, "await", dbgAwait/1e6, "goaway", dbgGoaway/1e6, "rest", dbgRest/1e6, "dial", dbgDial/1e6, "ms; lanes done at", int64(time.Since(t0))/1e6)
 	reap.Wait()
-	println("DBG reap done at", int64(time.Since(t0))/1e6)
+	ahead.close()
 	r.WriteAhead(map[string]interface{}{"phase": "flag-space driver finished; parallel drivers running (no single current case)"})
 	r.Extra("flag_space_wall_s", time.Since(t0).Seconds()) // evidence only, never judged
 }
